@@ -431,15 +431,18 @@ def run(ctx):
             for _, f in util.find_caches():
                 f.cache_clear()
             compare(ctx, h, warm_pass(ctx, h))
-    n = ctx.scale(14000, 200000)
+    n = ctx.scale(14000, 320000)
     n = max(n, 6000)       # every shard must fill each cache beyond maxsize on its own
-    hist = gen_history(ctx, n)
-    ctx.current_case = {'history-length': len(hist)}
-    warm = warm_pass(ctx, hist)
-    cache_report(ctx)
-    compare(ctx, hist, warm)
-    for c in hist[:3] + hist[-2:]:
-        ctx.sample(c)
+    # thorough: several histories one after the other in the same (ever warmer) interpreter, each compared with its own cold run
+    for rnd in range(1 if ctx.quick else 8):
+        hist = gen_history(ctx, n)
+        ctx.current_case = {'history-length': len(hist), 'round': rnd}
+        warm = warm_pass(ctx, hist)
+        if rnd == 0:
+            cache_report(ctx)
+        compare(ctx, hist, warm)
+        for c in hist[:3] + hist[-2:]:
+            ctx.sample(c)
 
 
 def replay(ctx, case):
